@@ -46,8 +46,17 @@ func configs(prop string, thorough bool) []*Config {
 			},
 			Logins: []LoginDef{{PID: 101}, {PID: 4294967397}},
 		}
+		// session ids are text: two tokens with the same numeric value (7 / 07 / 007) are two sessions
+		sp := &Config{Name: "C01-session-id-spellings", CutMode: 1, OIdent: true, ONoLeak: true, OSeq: true,
+			Sess: []SessDef{
+				{ID: "7", PID: "101", Events: []auparse.AuditMessageType{tLOGIN, tEV, tDISP}},
+				{ID: "07", PID: "102", Events: []auparse.AuditMessageType{tLOGIN, tEV, tDISP}},
+				{ID: "007", PID: "103", Events: []auparse.AuditMessageType{tLOGIN, tEV}}, // no login of its own
+			},
+			Logins: []LoginDef{{PID: 101}, {PID: 102}},
+		}
 		if !thorough {
-			return []*Config{c, w, w64}
+			return []*Config{c, w, w64, sp}
 		}
 		// three sessions in flight: cleanup only with the no-op cut-off (the 2-session alphabet walks every cut-off)
 		c3 := &Config{Name: "C01-3sess", CutMode: 1, OIdent: true, OIntact: true, MaxStates: 4000000,
@@ -59,7 +68,7 @@ func configs(prop string, thorough bool) []*Config {
 			},
 			Logins: []LoginDef{{PID: 101}, {PID: 102}, {PID: 103}, {PID: 104}},
 		}
-		return []*Config{c, w, w64, c3}
+		return []*Config{c, w, w64, sp, c3}
 	case "C02":
 		ev5 := []auparse.AuditMessageType{tLOGIN, tEV, tEV2, tDISP, tEV}
 		c := &Config{Name: "C02-2sess", CutMode: 1, OSeq: true, OIntact: true,
@@ -197,7 +206,16 @@ func configs(prop string, thorough bool) []*Config {
 				return g(sp, op)
 			}
 		}
-		return []*Config{c}
+		// the next connection with that pid logs in exactly as the earlier one did (same account, key, address and
+		// port - a script reconnecting): its login is a new login all the same
+		same := *c
+		same.Name = "C09-reuse-identical-login"
+		same.Logins = append([]LoginDef{}, c.Logins...)
+		same.Logins[1] = LoginDef{PID: 101, SameAs: 1}
+		if thorough {
+			same.Logins[3] = LoginDef{PID: 101, SameAs: 1}
+		}
+		return []*Config{c, &same}
 	case "C16":
 		ev3 := []auparse.AuditMessageType{tLOGIN, tEV, tDISP}
 		c := &Config{Name: "C16-cleanup", CutMode: 3, OSeq: true,
